@@ -1,0 +1,44 @@
+//go:build verif
+
+package gogen
+
+import (
+	"fmt"
+	"os"
+	"sync"
+)
+
+var (
+	verifTraceMu   sync.Mutex
+	verifTraceFile *os.File
+	verifTraceIDs  = map[*CodeBuilder]int{}
+)
+
+func init() {
+	if name := os.Getenv("VERIF_TRACE_FILE"); name != "" {
+		verifTraceFile, _ = os.OpenFile(name, os.O_CREATE|os.O_WRONLY|os.O_APPEND, 0o644)
+	}
+}
+
+// verifTrace records one block event of a builder as a line of JSON in the file named by VERIF_TRACE_FILE:
+// {"b":builder,"ev":"open"|"close"|"closed","kind":type of the current block,"len":stack length,"base":base of the
+// current block,"depth":scope depth}. "open" is logged when a construct has been opened, "close" on entry to its end,
+// "closed" after the enclosing context has been restored. Used by /verif (C16) to validate executions of the
+// repository's own tests against the frame discipline of the builder specification; no behaviour depends on it.
+func verifTrace(cb *CodeBuilder, ev string) {
+	if verifTraceFile == nil {
+		return
+	}
+	verifTraceMu.Lock()
+	defer verifTraceMu.Unlock()
+	id, ok := verifTraceIDs[cb]
+	if !ok {
+		id = len(verifTraceIDs) + 1
+		verifTraceIDs[cb] = id
+	}
+	depth := 0
+	for s := cb.current.scope; s != nil; s = s.Parent() {
+		depth++
+	}
+	fmt.Fprintf(verifTraceFile, "{\"b\":%d,\"ev\":%q,\"kind\":\"%T\",\"len\":%d,\"base\":%d,\"depth\":%d}\n", id, ev, cb.current.codeBlock, cb.stk.Len(), cb.current.base, depth)
+}
